@@ -212,7 +212,7 @@ theorem render_inv_auxE (P : Prims) :
   · intro args st vals j r' hc hok hi st' h
     simp only [renderNode] at h
     have hv : ∀ v ∈ args.map (evalArg true st), v.InvE := evalArgs_invE hi hok
-    generalize cycleStep (args.map (evalArg true st)) (args.map (evalArg true st)).length st.cycles = cs at h
+    generalize cycleStep _ _ st.cycles = cs at h
     obtain ⟨i, cyc⟩ := cs
     simp only [Except.ok.injEq] at h; subst h
     exact write_invE (st := { st with cycles := cyc }) ⟨hi.scopes, hi.locals, hi.globals, hi.out⟩ (outVal_good (getD_invE hv i))
